@@ -11,7 +11,7 @@ open PM.FromDom (LeafOk)
 /-! ### `insert_into` behind content at the innermost level -/
 
 /-- the walk of `insert_into` steps over whole children -/
-theorem insertInto_skip (S : Schema) (ins : List Node) (parent : Option TypeId) (level : List Node) (d0 : Nat) :
+theorem insertInto_overKids (S : Schema) (ins : List Node) (parent : Option TypeId) (level : List Node) (d0 : Nat) :
     ∀ (X rest : List Node) (idx oa ob : Nat), fnormKids X = true →
       insertInto S ins parent level d0 idx (X ++ rest) (fsize X) oa ob
         = flatInsert S ins parent level d0 (idx + X.length)
@@ -22,7 +22,7 @@ theorem insertInto_skip (S : Schema) (ins : List Node) (parent : Option TypeId) 
   | n :: ns, rest, idx, oa, ob, h => by
     simp only [fnormKids_cons, Bool.and_eq_true] at h
     have hp := Node.size_pos_of_norm n h.1
-    have ih := insertInto_skip S ins parent level d0 ns rest (idx + 1) oa ob h.2
+    have ih := insertInto_overKids S ins parent level d0 ns rest (idx + 1) oa ob h.2
     simp only [List.cons_append, fsize_cons]
     unfold insertInto
     rw [if_neg (by omega), if_pos (by omega), Nat.add_sub_cancel_left, ih]
@@ -50,7 +50,7 @@ theorem insertInto_leftS_at (S : Schema) (G X : List Node) (hX : fnormKids X = t
   | [], fills, tail, ob, _, _, htail => by
     have hnt : fnormKids tail = true := fnormKids_textFree tail htail
     simp only [leftS, List.length_nil, Nat.add_zero]
-    rw [insertInto_skip S G none (X ++ tail) (fsize X) X tail 0 0 ob hX]
+    rw [insertInto_overKids S G none (X ++ tail) (fsize X) X tail 0 0 ob hX]
     unfold flatInsert
     simp only
     have h1 : fcut (X ++ tail) 0 (fsize X) = .ok X := by
